@@ -58,7 +58,7 @@ def make_env(kind):
 
 def key_of(st):
     return (tuple(tuple((type(o).__name__, getattr(o, 'state', None), o.color) for o in row) for row in st.grid.objects),
-            int(st.agent.position.y), int(st.agent.position.x), st.agent.orientation, type(st.agent.grid_object).__name__)
+            int(st.agent.position.y), int(st.agent.position.x), st.agent.orientation, type(st.agent.grid_object).__name__, getattr(st.agent.grid_object, 'color', None))
 
 
 def successors(env, st, a):
